@@ -1,5 +1,21 @@
-"""Configuration generator (placeholder: default-only until option_domains is filled in)."""
+"""Configuration generator: documented option domains (tables/option_domains.json) -> Hypothesis strategy of rule configurations."""
+import json
+import os
+
 from hypothesis import strategies as st
+
+VERIF = os.path.dirname(os.path.dirname(os.path.dirname(os.path.abspath(__file__))))
+_DOM = None
+
+
+def domains():
+    """option -> list of {rules, values}; empty dict until the table exists"""
+    global _DOM
+    if _DOM is None:
+        p = os.path.join(VERIF, "tables", "option_domains.json")
+        _DOM = json.load(open(p)) if os.path.exists(p) else {}
+        _DOM = {k: v for k, v in _DOM.items() if not k.startswith("_")}
+    return _DOM
 
 
 def conf_strategy():
